@@ -119,6 +119,107 @@ def gen_ws_cases(rng, n, exhaustive_len=0):
     return cases
 
 
+BYTE_ALPHA = [chr(c) for c in (0xff, 0xff, 0xfe, 0x80, 0xe9, 0xc3, 0xa9, 0x01, 0x7f, 0x0d, 0x09, 0x20)] + list("abcxyz{}") 
+
+
+def bytes_family(rng, n):
+    import emit, gen
+    out = []
+    for _ in range(n):
+        def rl(nul=False):
+            t = "".join(rng.choice(BYTE_ALPHA + (["\0"] if nul else [])) for _ in range(rng.randint(1, 6)))
+            return t[:-1] + "z" if t.endswith("\r") else t
+        base = [(rl(), "L") for _ in range(rng.randint(6, 16))]
+        ops = []
+        for l in base:
+            r = rng.random()
+            if r < 0.12:
+                ops.append(("-", l))
+            elif r < 0.24:
+                ops.append(("-", l)); ops.append(("+", (rl(), "L")))
+            elif r < 0.32:
+                ops.append((" ", l)); ops.append(("+", (rl(), "L")))
+            else:
+                ops.append((" ", l))
+        hs = gen.hunks_from_ops(ops, rng.choice([1, 2, 3]))
+        if not hs:
+            continue
+        a = [l for o, l in ops if o != "+"]
+        # the target: the base, or the base with lines (NUL bytes too) put in between, some altered
+        t = list(a)
+        for _k in range(rng.choice([0, 0, 1, 2, 3])):
+            pos = rng.randint(0, len(t))
+            if rng.random() < 0.7:
+                t.insert(pos, (rl(nul=True), "L"))
+            elif t:
+                t[min(pos, len(t) - 1)] = (rl(nul=True), "L")
+        o = {"p": 1, "i": "p.diff", "F": rng.choice([0, 1, 2, 2, 3])}
+        if rng.random() < 0.2:
+            o["l"] = 1
+        text = emit.emit_unified("a/f", "b/f", hs)
+        out.append(dict(tree={"f": ("R", 0o644, emit.file_bytes(t)), "p.diff": ("R", 0o644, text)}, opts=o, umask=0o022, secs=[], hs=hs, target=t))
+    return out
+
+
+def judge_bytes(s, r):
+    import re as _re
+    if r["exit"] == 2:
+        return None
+    out = r["stdout"].decode("latin-1")
+    if "Reversed" in out or "Unreversed" in out:
+        return None
+    failed = set(int(x) for x in _re.findall(r"^Hunk #(\d+) (?:FAILED|skipped)", out, flags=_re.M))
+    after = r["tree"].get("f")
+    if after is None:
+        return "the target is gone"
+    got = after[2]
+    lines = [t.encode("latin-1") + b"\n" for t, _nl in s["target"]]
+    F = s["opts"].get("F", 2); ws = bool(s["opts"].get("l"))
+    def eq(a, b):
+        if a == b:
+            return True
+        if ws:
+            na = _re.sub(rb"[ \t]+", b" ", a.rstrip(b" \t\n")); nb = _re.sub(rb"[ \t]+", b" ", b.rstrip(b" \t\n"))
+            return na == nb
+        return False
+    hs = [h for k, h in enumerate(s["hs"], 1) if k not in failed]
+    def place(k, cursor, acc):
+        if k == len(hs):
+            return b"".join(acc) + b"".join(lines[cursor:]) == got
+        body = [(o, t.encode("latin-1") + b"\n") for o, t, _nl in hs[k]["body"]]
+        old = [(o, t) for o, t in body if o != "+"]
+        lead = 0
+        while lead < len(old) and old[lead][0] == " ":
+            lead += 1
+        trail = 0
+        while trail < len(old) - lead and old[-1 - trail][0] == " ":
+            trail += 1
+        for pos in range(cursor, len(lines) - len(old) + 1):
+            ok = True
+            for idx, (o, t) in enumerate(old):
+                if eq(lines[pos + idx], t):
+                    continue
+                if o == " " and (idx < min(F, lead) or idx >= len(old) - min(F, trail)):
+                    continue
+                ok = False; break
+            if not ok:
+                continue
+            res = []; q = pos
+            for o, t in body:
+                if o == " ":
+                    res.append(lines[q]); q += 1
+                elif o == "-":
+                    q += 1
+                else:
+                    res.append(t)
+            if place(k + 1, q, acc + lines[cursor:pos] + res):
+                return True
+        return False
+    if place(0, 0, []):
+        return None
+    return "the output (%d bytes) is not the target with the %d hunk(s) reported as applied put in at admissible places: an original line was lost, duplicated, moved or rewritten" % (len(got), len(hs))
+
+
 def run(prop, tier, seed):
     run_ = Run(prop, tier, seed)
     pr = proofs_into_run(run_, prop, THEOREMS[prop])
@@ -190,6 +291,21 @@ def run(prop, tier, seed):
         extra_mism += len(dm)
         if dm and not db and not bad:
             run_.violation("no-input", "correspondence L1 APPLY -D broken on %d cases" % len(dm), dict(dm[0][2], broken="correspondence L1 apply_patch -D"))
+    if prop == "C02":
+        # whole program, files of arbitrary bytes (0xff, NUL, CR inside a line, other 8-bit bytes) that drifted from the diff's
+        # base: the output has to be the target with every hunk the run reports as applied put in at increasing, non-overlapping
+        # places where its '-' lines and inner context are in the file -- every other line once, in order, with its own bytes
+        try:
+            import l2common
+            bf = bytes_family(rng, 200 if tier == "quick" else 3000)
+            _, bb, bm = l2common.l2_family(run_, build_impl("plain") + "/sb_patch", bf, judge_bytes, cls=lambda s, r: "bytes exit %d" % r["exit"], label="C02 bytes")
+            for i, d, rep in bb[:10]:
+                run_.violation("concrete", d, rep)
+            extra_mism += len(bm)
+            if bm and not bb and not bad:
+                run_.violation("no-input", "correspondence L2 whole-program runs (files of arbitrary bytes) broken on %d scenario(s)" % len(bm), dict(bm[0][2], broken="correspondence L2"))
+        except CheckError as e:
+            run_.violation("no-input", "build failed: %s" % e, dict(broken="build", detail=str(e)))
     rc, ri, rm, rmism, rbad = applyc.run_family_plain(run_, applyc.family_reapply(rng, na), "reapply")
     for i, d in rbad[:10]:
         run_.violation("concrete", d, dict(case=rc[i], impl=ri[i], model=rm[i]))
